@@ -1,0 +1,36 @@
+//go:build verif
+
+// Contracts for the OpenTelemetry dispatch hook (property C43, reduced core). Comment-only.
+
+package vgiotel
+
+// OnDispatchStart: whenever a propagator is configured and the dispatch carries transport
+// metadata, the caller's trace context is extracted from that metadata — whatever the incoming
+// context already holds — and the server span is started in the extracted context; the token
+// handed back carries that span.
+//
+//@ func (*otelHook).OnDispatchStart
+//@   property C43
+//@   pathflag extracted
+//@   at call propagation.TextMapPropagator.Extract assert [carrier] arg1 == old(ctx)
+//@   at call propagation.TextMapPropagator.Extract mark extracted
+//@   at call trace.Tracer.Start assert [parented] (old(h.cfg.Propagator) != nil && info.TransportMetadata != nil ==> extracted) && arg1 == ctx
+//@   ensures [local_token_ret2] typeof(result1) == *spanToken && as(result1, "*spanToken").span == span
+
+// OnDispatchEnd: a recording span is ended, exactly once, after its status was set — Error exactly
+// when the call failed, Ok otherwise; the request counter is incremented by one with the matching
+// status whenever metrics are on.
+//
+//@ func (*otelHook).OnDispatchEnd
+//@   property C43
+//@   pathflag ended
+//@   pathflag recording
+//@   pathflag statusSet
+//@   at call trace.Span.IsRecording setflag recording result
+//@   at call trace.Span.SetStatus#1 assert [error] err != nil && arg0 == st.span
+//@   at call trace.Span.SetStatus#2 assert [ok] err == nil && arg0 == st.span
+//@   at call trace.Span.SetStatus mark statusSet
+//@   at call trace.Span.End assert [once] !ended && statusSet && recording && arg0 == st.span
+//@   at call trace.Span.End mark ended
+//@   at call metric.Int64Counter.Add assert [counted] arg2 == 1 && status == (err != nil ? "error" : "ok")
+//@   ensures [local_endedifrecording] recording ==> ended
